@@ -73,18 +73,21 @@ Definition g_rtf (stamp : Z) : gmap :=
 Definition plan_set (p : plan) (st : option state) (rs : reason) : plan :=
   plan_with p (p_bypass p) (p_pre p) (p_cont p) (p_post p) (p_deferred p) (p_blocks p) st rs.
 
-Definition running_to_failed (stamp : Z) (p : plan) : plan :=
-  let p := plan_set p (option_map (set_end stamp) (p_state p)) (p_reason p) in
-  tm_plan (g_rtf stamp) p.
+(* runningToFailed(ctx, p, end): every Running object becomes Failed and ends at [end_] *)
+Definition running_to_failed (end_ : Z) (p : plan) : plan := tm_plan (g_rtf end_) p.
 
-(* agedOut, in memory:
+(* agedOut, in memory (since fix f93b03f, R10):
+     last := lastUpdate(ctx, plan)                       -- BEFORE anything is changed
      plan.State.Status = workflow.Failed; plan.Reason = workflow.FRExceedRecovery
-     plan.State.End = time.Now(); runningToFailed(ctx, plan) *)
+     runningToFailed(ctx, plan, last)                    -- the interrupted objects end at [last], not now
+     plan.State.End = time.Now()
+   [stamp] is that time.Now(). *)
 Definition age_out (stamp : Z) (p : plan) : plan :=
+  let last := last_update p in
   let p := plan_set p (option_map (set_status Failed) (p_state p)) (p_reason p) in
   let p := plan_set p (p_state p) FRExceedRecovery in
-  let p := plan_set p (option_map (set_end stamp) (p_state p)) (p_reason p) in
-  running_to_failed stamp p.
+  let p := running_to_failed last p in
+  plan_set p (option_map (set_end stamp) (p_state p)) (p_reason p).
 
 (* ---- the store: Update* rewrites the row with the same table and id ---- *)
 Definition g_write (w : row) : gmap :=
@@ -107,17 +110,22 @@ Definition g_write (w : row) : gmap :=
 Definition apply_write (s : store) (w : row) : store := map (tm_plan (g_write w)) s.
 Definition persist (s : store) (ws : list row) : store := fold_left apply_write ws s.
 
-(* agedOut, durable part (since fix 7ff23c2):
-     r.store.UpdatePlan(plan)
+(* agedOut, durable part (since fix f93b03f, R10):
      for item := range walk.Plan(plan) { switch type: Block -> UpdateBlock, Check -> UpdateChecks,
                                          Sequence -> UpdateSequence, Action -> UpdateAction }
-   i.e. the plan row first, then the row of every other object in walk order (the plan item of the walk
-   has no case in the switch).  Before the fix the list was the plan row alone ([writes_plan_only]). *)
-Definition writes_aged (pm : plan) : list row :=
-  RPlan (oid (p_id pm)) (p_state pm) (p_reason pm) :: tl (rows_plan pm).
+     r.store.UpdatePlan(plan)
+   i.e. the row of every object but the plan in walk order (the plan item of the walk has no case in the
+   switch), and the plan row LAST: as long as the plan row is Running the next start-up finds the plan
+   again, finds it stale again (the closed objects end at its last recorded activity) and repeats the
+   close.  Before that fix the plan row came first ([writes_plan_first]); before 7ff23c2 it was the plan
+   row alone ([writes_plan_only]). *)
+Definition plan_row (pm : plan) : row := RPlan (oid (p_id pm)) (p_state pm) (p_reason pm).
 
-Definition writes_plan_only (pm : plan) : list row :=
-  [RPlan (oid (p_id pm)) (p_state pm) (p_reason pm)].
+Definition writes_aged (pm : plan) : list row := tl (rows_plan pm) ++ [plan_row pm].
+
+Definition writes_plan_first (pm : plan) : list row := rows_plan pm.
+
+Definition writes_plan_only (pm : plan) : list row := [plan_row pm].
 
 Definition aged_out (stamp : Z) (aged : list plan) (s : store) : store :=
   fold_left (fun s p => persist s (writes_aged (age_out stamp p))) aged s.
@@ -188,7 +196,7 @@ Definition open_workstream_late (now stamp maxAge : Z) (recovery : bool) (v : va
 
 (* ---- a crash during the close ----
    The Update* calls start-up recovery makes, in order: for every aged plan (in the order of the state
-   chain) its close, plan row first.  [crash_during_close j] is the durable store a process leaves that
+   chain) its close, plan row last.  [crash_during_close j] is the durable store a process leaves that
    dies after the j-th of them; the next incarnation runs [select] on it. *)
 Definition close_writes (now stamp maxAge : Z) (s : store) : list row :=
   match fetch_plans s (search_running s) with
@@ -198,10 +206,6 @@ Definition close_writes (now stamp maxAge : Z) (s : store) : list row :=
 
 Definition crash_during_close (j : nat) (now stamp maxAge : Z) (s : store) : store :=
   persist s (firstn j (close_writes now stamp maxAge s)).
-
-(* the seeded change C11-e: sub-objects first, the plan row last *)
-Definition writes_plan_last (pm : plan) : list row :=
-  tl (rows_plan pm) ++ [RPlan (oid (p_id pm)) (p_state pm) (p_reason pm)].
 
 (* ---- execute.New and a recovery that fails (since fix 2c25a0f, R8) ----
        if e.recovery { if err := e.recover(ctx); err != nil { return nil, err } }
